@@ -2,7 +2,8 @@ import RscelModel.Lemmas.ParseSpec
 namespace Rscel
 namespace C02
 
-theorem P6_nots {o : Span} {os : List Span} {e : T} (hl : 7 ≤ e.level) (h : P 7 e) : P 6 (.nots o os e) := by
+theorem P6_nots {o : Span} {os : List Span} {e : T} (hw : e.Wf) (hl : 7 ≤ e.level) (h : P 7 e) :
+    P 6 (.nots o os e) := by
   intro f ps rest d hf ha hn hs
   simp only [fuel, nest] at hf hn
   obtain ⟨f, rfl⟩ : ∃ f', f = f' + 1 := ⟨f - 1, by omega⟩
@@ -11,7 +12,7 @@ theorem P6_nots {o : Span} {os : List Span} {e : T} (hl : 7 ≤ e.level) (h : P 
   obtain ⟨ps1, e1, a1⟩ := pPeek_at ha'
   obtain ⟨tk, sp, r, hr, _, hne⟩ := render_head e
   obtain ⟨ps2, e2, a2⟩ := opRun_spec .not (o :: os) f [] ps1 (render e ++ rest) d (by simp; omega) a1
-    (by simp; omega) (by intro sp' r' h; simp [hr] at h; exact (hne hl).1 h.1.1)
+    (by simp; omega) (by intro sp' r' h; simp [hr] at h; exact (hne hw hl).1 h.1.1)
   obtain ⟨ps3, e3, a3⟩ := h f ps2 rest d (by omega) a2 (by simp at hn ⊢; omega) (stopAt_mono hs (by omega))
   refine ⟨ps3, ?_, a3⟩
   simp only [parseAt, embed] at e3 ⊢
@@ -19,7 +20,7 @@ theorem P6_nots {o : Span} {os : List Span} {e : T} (hl : 7 ≤ e.level) (h : P 
   simp only [List.map_cons, List.cons_append, List.head?, e2, e3]
   simp [runSpan]
 
-theorem P6_negs {o : Span} {os : List Span} {e : T} (hl : 7 ≤ e.level) (h : P 7 e)
+theorem P6_negs {o : Span} {os : List Span} {e : T} (hw : e.Wf) (hl : 7 ≤ e.level) (h : P 7 e)
     (hmin : ∀ n sp r, render e = (.intLit n, sp) :: r → n ≠ minIntMagnitude) : P 6 (.negs o os e) := by
   intro f ps rest d hf ha hn hs
   simp only [fuel, nest] at hf hn
@@ -29,7 +30,7 @@ theorem P6_negs {o : Span} {os : List Span} {e : T} (hl : 7 ≤ e.level) (h : P 
   obtain ⟨ps1, e1, a1⟩ := pPeek_at ha'
   obtain ⟨tk, sp, r, hr, _, hne⟩ := render_head e
   obtain ⟨ps2, e2, a2⟩ := opRun_spec .minus (o :: os) f [] ps1 (render e ++ rest) d (by simp; omega) a1
-    (by simp; omega) (by intro sp' r' h; simp [hr] at h; exact (hne hl).2 h.1.1)
+    (by simp; omega) (by intro sp' r' h; simp [hr] at h; exact (hne hw hl).2 h.1.1)
   obtain ⟨ps3, e3, a3⟩ := pPeek_at a2
   obtain ⟨ps4, e4, a4⟩ := h f ps3 rest d (by omega) a3 (by simp at hn ⊢; omega) (stopAt_mono hs (by omega))
   refine ⟨ps4, ?_, a4⟩
@@ -105,61 +106,104 @@ theorem exprUng_tern {q c : Span} {a b e : T} (h1 : P 1 a) (h2 : P 1 b) (h3 : P 
 
 /-! ### The induction over derivation trees -/
 
-theorem P_down {t : T} {k : Nat} (hk : k < t.level) (h : P (k + 1) t) : P k t := by
+theorem P_down {t : T} {k : Nat} (hw : t.Wf) (hk : k < t.level) (h : P (k + 1) t) : P k t := by
   have h7 := level_le t
   have : k = 0 ∨ (1 ≤ k ∧ k ≤ 5) ∨ k = 6 := by omega
   rcases this with rfl | hk' | rfl
   · exact P0_of_P1 h
   · exact P_of_R hk' (R_of_P hk' hk h)
-  · exact P6_of_P7 (by omega) h
+  · exact P6_of_P7 hw (by omega) h
 
-theorem P_all {t : T} (h : P t.level t) : ∀ k, k ≤ t.level → P k t := by
+theorem P_all {t : T} (hw : t.Wf) (h : P t.level t) : ∀ k, k ≤ t.level → P k t := by
   intro k hk
   obtain ⟨n, hn⟩ : ∃ n, t.level = k + n := ⟨t.level - k, by omega⟩
   induction n generalizing k with
   | zero => have : k = t.level := by omega
             rw [this]; exact h
-  | succ n ih => exact P_down (by omega) (ih (k + 1) (by omega) (by omega))
+  | succ n ih => exact P_down hw (by omega) (ih (k + 1) (by omega) (by omega))
 
-theorem all_of_top {t : T} (hP : P t.level t) (hR : 1 ≤ t.level ∧ t.level ≤ 5 → R t.level t) :
-    (∀ k, k ≤ t.level → P k t) ∧ (∀ k, 1 ≤ k ∧ k ≤ 5 → k ≤ t.level → R k t) := by
-  refine ⟨P_all hP, fun k hk hl => ?_⟩
+/-- What the induction carries for a tree: it is parsed back at every level its root admits, reaches
+    the loop of every binary level, and — for a member — the postfix loop. -/
+def Good (t : T) : Prop :=
+  (∀ k, k ≤ t.level → P k t) ∧ (∀ k, 1 ≤ k ∧ k ≤ 5 → k ≤ t.level → R k t) ∧ (7 ≤ t.level → M t)
+
+theorem all_of_top {t : T} (hw : t.Wf) (hP : P t.level t) (hR : 1 ≤ t.level ∧ t.level ≤ 5 → R t.level t)
+    (hM : 7 ≤ t.level → M t) : Good t := by
+  refine ⟨P_all hw hP, fun k hk hl => ?_, hM⟩
   by_cases hkl : k = t.level
   · subst hkl; exact hR hk
-  · exact R_of_P hk (by omega) (P_all hP (k + 1) (by omega))
+  · exact R_of_P hk (by omega) (P_all hw hP (k + 1) (by omega))
 
-theorem min_ok {e : T} (hl : 7 ≤ e.level) (hw : e.Wf) :
+theorem good_member {t : T} (hw : t.Wf) (hl : t.level = 7) (hM : M t) : Good t :=
+  all_of_top hw (by rw [hl]; exact P7_of_M hM) (by omega) (fun _ => hM)
+
+theorem head_of_append {e : T} {tail : TS} {x : Tok × Span} {r : TS} (h : render e ++ tail = x :: r) :
+    ∃ r', render e = x :: r' := by
+  obtain ⟨tk, sp, r', hr, _, _⟩ := render_head e
+  rw [hr] at h ⊢
+  simp only [List.cons_append, List.cons.injEq] at h
+  exact ⟨r', by rw [h.1]⟩
+
+theorem min_ok (e : T) (hw : e.Wf) (hl : 7 ≤ e.level) :
     ∀ n sp r, render e = (.intLit n, sp) :: r → n ≠ minIntMagnitude := by
-  intro n sp r h
-  cases e <;> simp [render, T.level] at h hl
-  case int sp' n' =>
+  induction e with
+  | ident => intro n sp r h; simp [render] at h
+  | int sp' n' =>
+    intro n sp r h
     simp only [T.Wf, i64Max] at hw
+    simp only [render, List.cons.injEq, Prod.mk.injEq, Tok.intLit.injEq] at h
     obtain ⟨⟨rfl, _⟩, _⟩ := h
     simp only [minIntMagnitude]; omega
-  case bin op _ _ _ => cases op <;> simp [BinOp.level] at hl
+  | paren => intro n sp r h; simp [render] at h
+  | nots => simp [T.level] at hl
+  | negs => simp [T.level] at hl
+  | bin op _ _ _ => cases op <;> simp [T.level, BinOp.level] at hl
+  | tern => simp [T.level] at hl
+  | access e _ _ _ ih =>
+    intro n sp r h
+    obtain ⟨r', h'⟩ := head_of_append (by simpa [render] using h)
+    exact ih hw.2 hw.1 n sp r' h'
+  | index e _ _ _ ih _ =>
+    intro n sp r h
+    obtain ⟨r', h'⟩ := head_of_append (by simpa [render] using h)
+    exact ih hw.2.1 hw.1 n sp r' h'
+  | call0 e _ _ ih =>
+    intro n sp r h
+    obtain ⟨r', h'⟩ := head_of_append (by simpa [render] using h)
+    exact ih hw.2 hw.1 n sp r' h'
+  | call1 e _ _ _ ih _ =>
+    intro n sp r h
+    obtain ⟨r', h'⟩ := head_of_append (by simpa [render] using h)
+    exact ih hw.2.1 hw.1 n sp r' h'
+  | call2 e _ _ _ _ _ ih _ _ =>
+    intro n sp r h
+    obtain ⟨r', h'⟩ := head_of_append (by simpa [render] using h)
+    exact ih hw.2.1 hw.1 n sp r' h'
 
 /-- Every derivation tree is parsed back, at every grammar level its root admits. -/
-theorem main (t : T) (hw : t.Wf) :
-    (∀ k, k ≤ t.level → P k t) ∧ (∀ k, 1 ≤ k ∧ k ≤ 5 → k ≤ t.level → R k t) := by
+theorem main (t : T) (hw : t.Wf) : Good t := by
   induction t with
-  | ident sp n => exact all_of_top (P7_ident sp n) (by simp [T.level])
-  | int sp n => exact all_of_top (P7_int sp n hw) (by simp [T.level])
-  | paren l r e ih => exact all_of_top (P7_paren ((ih hw).1 0 (Nat.zero_le _))) (by simp [T.level])
+  | ident sp n => exact good_member hw rfl (M_ident sp n)
+  | int sp n => exact good_member hw rfl (M_int sp n hw)
+  | paren l r e ih => exact good_member hw rfl (M_paren ((ih hw).1 0 (Nat.zero_le _)))
   | nots o os e ih =>
-    obtain ⟨hl, hw⟩ := hw
-    exact all_of_top (P6_nots hl ((ih hw).1 7 hl)) (by simp [T.level])
+    obtain ⟨hl, hwe⟩ := hw
+    exact all_of_top ⟨hl, hwe⟩ (P6_nots hwe hl ((ih hwe).1 7 hl)) (by simp [T.level]) (by simp [T.level])
   | negs o os e ih =>
-    obtain ⟨hl, hw⟩ := hw
-    exact all_of_top (P6_negs hl ((ih hw).1 7 hl) (min_ok hl hw)) (by simp [T.level])
+    obtain ⟨hl, hwe⟩ := hw
+    exact all_of_top ⟨hl, hwe⟩ (P6_negs hwe hl ((ih hwe).1 7 hl) (min_ok e hwe hl)) (by simp [T.level])
+      (by simp [T.level])
   | bin op osp l r ihl ihr =>
+    have hw' := hw
     obtain ⟨hll, hlr, hwl, hwr⟩ := hw
     have hk : 1 ≤ op.level ∧ op.level ≤ 5 := by cases op <;> simp [BinOp.level]
     have hR : R op.level (.bin op osp l r) :=
-      R_bin ((ihl hwl).2 _ hk hll) ((ihr hwr).1 _ hlr)
-    exact all_of_top (P_of_R hk hR) (fun _ => hR)
+      R_bin ((ihl hwl).2.1 _ hk hll) ((ihr hwr).1 _ hlr)
+    exact all_of_top hw' (P_of_R hk hR) (fun _ => hR) (by simp only [T.level]; omega)
   | tern q c a b e iha ihb ihe =>
+    have hw' := hw
     obtain ⟨hla, hlb, hwa, hwb, hwe⟩ := hw
-    refine all_of_top ?_ (by simp [T.level])
+    refine all_of_top hw' ?_ (by simp [T.level]) (by simp [T.level])
     intro f ps rest d hf ha hn hs
     obtain ⟨f, rfl⟩ : ∃ f', f = f' + 2 := ⟨f - 2, by simp [T.level] at hf; omega⟩
     simp only [T.level, parseAt]
@@ -168,6 +212,15 @@ theorem main (t : T) (hw : t.Wf) :
     exact enter_spec ha (by simp [T.level] at hn; omega)
       (fun ps0 a0 => exprUng_tern ((iha hwa).1 1 hla) ((ihb hwb).1 1 hlb) ((ihe hwe).1 0 (Nat.zero_le _))
         (by omega) a0 (by simp [T.level] at hn; omega) hs)
+  | access e d i n ih => exact good_member hw rfl (M_access ((ih hw.2).2.2 hw.1))
+  | index e l r i ihe ihi =>
+    exact good_member hw rfl (M_index ((ihe hw.2.1).2.2 hw.1) ((ihi hw.2.2).1 0 (Nat.zero_le _)))
+  | call0 e l r ih => exact good_member hw rfl (M_call0 ((ih hw.2).2.2 hw.1))
+  | call1 e l r a ihe iha =>
+    exact good_member hw rfl (M_call1 ((ihe hw.2.1).2.2 hw.1) ((iha hw.2.2).1 0 (Nat.zero_le _)))
+  | call2 e l r a c b ihe iha ihb =>
+    exact good_member hw rfl (M_call2 ((ihe hw.2.1).2.2 hw.1) ((iha hw.2.2.1).1 0 (Nat.zero_le _))
+      ((ihb hw.2.2.2).1 0 (Nat.zero_le _)))
 
 end C02
 end Rscel
